@@ -1,7 +1,7 @@
 PROP = dict(
     drivers=['Palette', 'PalStream'],
-        gens=['palette', 'palstream', 'xb', 'binfmt'],
-        lake=['IcyVerif.Props.C16'],
+        gens=['palette', 'palcolor', 'palfile', 'palstream', 'xb', 'binfmt'],
+        lake=['IcyVerif.Props.C16', 'IcyVerif.Props.C16b'],
         ns='IcyVerif.C16',
         theorems=['insert_resolves', 'insert_stable', 'insert_existing', 'insert_new', 'set_resolves', 'set_stable',
                   'history_stable', 'inserted_index_survives', 'trace_final',
@@ -11,7 +11,11 @@ PROP = dict(
                   'osc4_changes_exactly', 'sgr_never_redefines', 'csi_t_never_redefines', 'osc_only_redefines', 'tnd_only_inserts',
                   'sgr_256_resolves', 'sgr_rgb_resolves', 'cell_keeps_colour', 'tnd_palette_nodup', 'fill_to_16_stable',
                   'resize_stable', 'import_by_extension', 'color_hex_roundtrip',
-                  'file_block_idempotent', 'file_block_six_bit', 'file_decoder_is_from63'],
+                  'file_block_idempotent', 'file_block_six_bit', 'file_decoder_is_from63',
+                  'color_eq_ignores_name', 'named_insert_refines', 'named_insert_existing', 'named_insert_new', 'named_insert_resolves',
+                  'named_history_refines', 'named_is_default', 'named_colors_equal', 'loaded_palette_insert_existing',
+                  'file_palette_roundtrip', 'file_palette_roundtrip_nosauce_partial',
+                  'xb_writer_palette_block', 'xb_loader_palette_block', 'xb_palette_any_picture'],
         harness='c16',
         design='DESIGN.md §4 C16',
         technique='Lean 4 proof: index laws of insert_color / set_color / push / get_rgb by induction on the palette list and '
@@ -33,7 +37,16 @@ PROP = dict(
                   'is pinned by the translator (a change = broken obligation). The OSC regex is a hand-written matcher tied by the '
                   'correspondence run. Whole-file palette blocks: the C05 whole-file model (Model/BinFormats.lean) is driven for '
                   'XBin/IDF/ADF/Tundra files and its from_63/as_vec_63 are proved idempotent for every byte block and equal to this '
-                  'property\'s from63.',
+                  'property\'s from63. COLOURS AS STORED: a second model (Model/PaletteNamed.lean) runs insert_color / set_color / push / '
+                  'get_rgb / is_default / are_colors_equal on Color { name, r, g, b }, comparing exactly the fields the source compares '
+                  '(Gen/PalColor.lean lists the fields of `impl PartialEq for Color` - or of a derived one - and of the search in '
+                  'insert_color, regenerated every run); it is proved equal to the RGB model after erasing names for one operation and, by '
+                  'induction on the history, for every history (named_history_refines), so every index law holds for palettes whose '
+                  'entries carry names (loaded from ICE / GPL files or built through the API) and for named arguments; the proof needs '
+                  'both field lists to be [r, g, b] and breaks when a name starts to take part. WHOLE FILES WRITTEN FROM A PICTURE: '
+                  'file_palette_roundtrip (all sixteen entries come back, for every representable picture incl. two-font XBin) is a corollary '
+                  'of the C05 round-trip theorems; xb_writer_palette_block / xb_loader_palette_block / xb_palette_any_picture are proved by '
+                  'case analysis of the model writer / loader for EVERY picture and EVERY file (nothing but the palette decides the block).',
         rule='cases: seeded insert/set/lookup/push histories on palettes of 0..=300 colours (every answer + final palette '
              'compared); from_63 / as_vec_63 / from_ega_data / to_ega_data on all 64 values per channel (thorough: all 64^3 '
              'triples), raw bytes, ragged and short inputs; export of 0..=256 colours x {empty, ASCII, digit-laden, hex-laden, '
@@ -55,7 +68,17 @@ PROP = dict(
              'every stored cell\'s indices; oracle: every cell resolves to the RGB of its record, no colour twice, entry 0 black, '
              'load->save->load shows the same colours. FILES: 16-colour six-bit palettes covering all 64 values in every channel '
              'x {xb, idf, adf} saved and loaded by the real crate, raw palette blocks (values above 63) patched into engine-written '
-             'files, load->save->load. HELPERS: resize / fill_to_16 / is_default / from_slice / get_color / clear; '
+             'files, load->save->load. NAMED COLOURS (c16n.rs): histories of insert / set / push / lookup / is_default with named and '
+             'unnamed colours on palettes with no / some / all entries named (every entry re-inserted unnamed, under its own and '
+             'under another name; the same RGB twice under different names; the DOS palette with names), and on palettes LOADED from '
+             'exported ICE / GPL / Hex / PAL / TXT files and hand-written ICE / GPL files with names: every answer and the final '
+             'colours WITH names compared; oracle on the implementation alone: index laws on (RGB, name) entries, is_default / '
+             'are_colors_equal see RGB only, and the whole history answers like the same history with every name stripped. WHOLE '
+             'FILES WRITTEN BY THE MODEL TOO (c16f.rs, `palstream savepal`): {xb, adf, idf, tnd} x {1, 2 fonts} x {default, custom low '
+             'half, custom high half, custom all, 8 / 15 / 17 / 32 colours} x {six-bit exact, arbitrary 8-bit} x {raw, compressed, '
+             'SAUCE}: file length + hash + loaded palette compared with BinFormats.save / fromBytes; oracle: all sixteen entries '
+             'read back = saved at 6-bit precision (Tundra: every cell shows the colours it was saved with). Palette files with '
+             'repeated neighbouring colours in all five formats. HELPERS: resize / fill_to_16 / is_default / from_slice / get_color / clear; '
              'distinct_nontrivial = distinct replay inputs',
         modelled='Palette::{from, get_rgb, insert_color, insert_color_rgb, set_color, set_color_rgb, push, as_vec, from_63, '
                  'as_vec_63, export_palette, load_palette (Hex, Pal, Gpl, Ice, Txt), import_palette, resize, fill_to_16, '
@@ -67,14 +90,25 @@ PROP = dict(
                  'hand-written matcher, index limit, set_color_rgb; OSC 8 as a no-op on colours), ESC c / FF as colour reset, a '
                  'printed character as a cell write; TundraDraw::load_buffer command loop (colour records, jumps, truncation) as '
                  'palette operations + cell positions, cross-checked at run time against the C05 whole-file model; XBin / IDF / '
-                 'ADF / Tundra load and save of whole files through the C05 model (Model/BinFormats.lean)',
+                 'ADF / Tundra load and save of whole files through the C05 model (Model/BinFormats.lean), the SAVE side now driven '
+                 'from pictures with one and two fonts (`palstream savepal`); Color as stored (name + RGB): `impl PartialEq for Color` '
+                 'and the search of insert_color as generated field lists, insert_color / insert_color_rgb / set_color / set_color_rgb '
+                 '/ push / get_rgb / is_default / are_colors_equal on named colours (Model/PaletteNamed.lean); the text of Color::new, '
+                 'the struct fields, the skeletons of these functions and the palette statements of the XBin / ADF / IDF writers and '
+                 'loaders are pinned by the translator (palcolor, palfile)',
         not_modelled='PaletteFormat::Ase (todo!()), set_color_hsl and the f32/f64 Color conversions (floats), get_checksum '
                      '(incremental CRC over appended colours only: an entry redefined by OSC 4 does not change it - not part of '
                      'this property), invalid UTF-8 input (load_palette returns Err before any matcher runs; the driver answers err '
                      'too), \\d on non-ASCII decimal digits (model reads \\d as [0-9] in the palette files and in OSC 4; generator '
                      'avoids them), u32 index overflow in set_color for indices near usize::MAX, an ESC inside an OSC string, '
                      'non-ASCII bytes in escape sequences, every other CSI / escape sequence (they do not touch palette or caret '
-                     'colours: C04/C15), negative Tundra jump targets',
+                     'colours: C04/C15), negative Tundra jump targets; `#[derive(PartialEq)]` on Palette itself (compares title, '
+                     'description, author and the checksum cache too - not used by the anchored code); the ADF / IDF writers and loaders '
+                     'outside Representable pictures (the every-picture theorems xb_writer_palette_block / xb_loader_palette_block '
+                     'exist for XBin only; ADF / IDF accept one font and exactly 16 colours, so file_palette_roundtrip covers what '
+                     'they write except non-six-bit palettes, which the savepal correspondence and oracle cover by cases only); the SAUCE '
+                     'stripping of from_bytes for non-representable XBin pictures (xb_palette_any_picture is stated for the body handed to '
+                     'the loader)',
         assumptions=['the regex crate matches the five colour patterns, eight metadata patterns and OSC_PALETTE like the '
                      'hand-written matchers (checked only by the correspondence run)',
                      'palettes have fewer than 2^31 colours (insert_resolves, set_resolves, inserted_index_survives, '
